@@ -712,6 +712,9 @@ def p_table_delim_row_text(case):
                     ws = l.split(b" ")
                     if any(ok(w) for w in (ws if i else ws[1:])):
                         return True
+                # a wrapped line of the output itself reads as a delimiter row (it may hold spaces)
+                if any(ok(x.lstrip(b"> ")) for x in c1_lines(case)[1:]):
+                    return True
     return False
 
 
@@ -870,12 +873,33 @@ _BS_PUNCT = re.compile(rb"\\[!-/:-@\[-`{-~]")
 
 
 def p_html_inline_multiline(case):
-    """an inline HTML literal spans lines and one of its continuation lines starts like a block"""
+    """an inline HTML literal spans lines and one of its continuation lines starts like a block, or with
+    indentation (kept in the literal on the first parse, stripped as paragraph indentation on the second)"""
     for n in case.nodes("HtmlInline"):
         ls = n.lit().split(b"\n")
-        if any(_BLOCK_START.match(l) for l in ls[1:]):
+        if any(_BLOCK_START.match(l) or l[:1] in (b" ", b"\t") for l in ls[1:]):
             return True
     return False
+
+
+_TASK_TEXT = re.compile(rb"^\[[ xX]*\]")
+
+
+def p_tasklist_bracket_text(case):
+    """tasklist extension: the first text of an item reads `[ ]`/`[x]` (possibly after wrapping collapsed its
+    spaces); the brackets are written escaped, but the task marker is looked for in the Text node after
+    inline parsing, so `- \\[ \\]` comes back as a task item"""
+    if not case.opts.get("tasklist"):
+        return False
+    for it in case.nodes("Item"):
+        if it.ch and it.ch[0].kind == "Paragraph" and it.ch[0].ch and it.ch[0].ch[0].kind == "Text" and _TASK_TEXT.match(it.ch[0].ch[0].lit()):
+            return True
+    return False
+
+
+def p_task_item_non_paragraph_first(case):
+    """a task item whose first child is not a paragraph: `- [ ] ` is followed directly by the block's own marker"""
+    return any(t.ch and t.ch[0].kind != "Paragraph" for t in case.nodes("TaskItem"))
 
 
 def p_entity_in_url_or_title(case):
@@ -1185,6 +1209,8 @@ CLASSES = {
     "adjacent_indented_code": _c(p_adjacent_indented_code),
     "indented_html_after_list": _c(p_indented_html_after_list),
     "amp_escape_unstable": _c(p_amp_escape_unstable),
+    "tasklist_bracket_text": _c(p_tasklist_bracket_text),
+    "task_item_non_paragraph_first": _c(p_task_item_non_paragraph_first),
     "end_list_comment_in_container": _c(p_end_list_comment_in_container),
     "end_list_after_empty_item": _c(p_end_list_after_empty_item),
 }
